@@ -105,12 +105,20 @@ def run_list(params, frames, validator=_valid_tuple):
     return tok.tokenize(Src(frames))
 
 
-def run_callback(params, frames, validator=_valid_tuple):
+def run_callback(params, frames, validator=_valid_tuple, hand=None):
+    """Callback mode; if `hand` is a list, (s, e, frames_read, nones_read) is logged at every callback entry."""
     ST = _auditok()["ST"]
     mn, mx, ms, im, is_, mode = params
     tok = ST(validator, mn, mx, ms, im, is_, mode)
     out = []
-    ret = tok.tokenize(Src(frames), callback=lambda d, s, e: out.append((d, s, e)))
+    src = Src(frames)
+
+    def cb(d, s, e):
+        out.append((d, s, e))
+        if hand is not None:
+            hand.append((s, e, src.i, src.nones))
+
+    ret = tok.tokenize(src, callback=cb)
     return out, ret
 
 
@@ -168,8 +176,14 @@ def judge(oracle, params, n, bits, memo, variant=0):
             msg = tm.check_c08_timing(flags, [(s, e, r, z) for _, s, e, r, z in hand], mx, ms)
         if msg is None:
             lst = run_list(params, frames)
-            cb, ret = run_callback(params, frames)
-            if [(d, s, e) for d, s, e in lst] != toks or not isinstance(lst, list):
+            cbhand = []
+            cb, ret = run_callback(params, frames, hand=cbhand)
+            m2 = tm.check_c08_timing(flags, cbhand, mx, ms)
+            if m2:
+                msg = "callback mode: " + m2
+            if msg:
+                pass
+            elif [(d, s, e) for d, s, e in lst] != toks or not isinstance(lst, list):
                 msg = "list mode %r differs from generator mode %r" % (
                     [(s, e) for _, s, e in lst], se)
             elif cb != toks:
